@@ -61,7 +61,8 @@ func (g *gen) c09label() string {
 	return g.pick(c09labels)
 }
 
-// plain name: 0..4 labels, sometimes empty labels / trailing dot / root
+// plain name: 0..4 labels, sometimes empty labels / trailing dot / root / a literal `*` label
+// behind an empty one (formerly C09-empty-label-before-star)
 func (g *gen) c09name() string {
 	switch g.intn(24) {
 	case 0:
@@ -70,6 +71,8 @@ func (g *gen) c09name() string {
 		return "."
 	case 2:
 		return g.pick([]string{"..", "a..b", "a.b.", "a.b..", "a...b.c"})
+	case 3:
+		return g.pick([]string{".*.a.b", "..*.a", ".*", ".*.", ".*.*.a", ".\\052.a.b", ".a.b", ".*..b", "*.a.b", "*"})
 	}
 	n := 1 + g.intn(4)
 	var ls []string
@@ -82,9 +85,6 @@ func (g *gen) c09name() string {
 // owner name of a type that understands wildcards
 func (g *gen) c09wname() string {
 	n := g.c09name()
-	if strings.HasPrefix(n, ".") {
-		n = "a" + n
-	}
 	switch g.intn(8) {
 	case 0:
 		return "*." + n
@@ -94,26 +94,21 @@ func (g *gen) c09wname() string {
 	return n
 }
 
-// server name (ns / mx / srv): avoids the confirmed defect class "fewer than two non-empty
-// labels after expansion" unless owner has a non-empty label and the name has no dot
+// server name (ns / mx / srv): empty (also on a root owner), a prefix without a dot, fully
+// qualified names of one label (`c.`), of no label (`.`, `..`), of several (formerly
+// C09-server-name-expansion: names that print with fewer than two labels)
 func (g *gen) c09server(owner string) string {
-	ownerHasLabel := strings.Trim(owner, ".") != ""
-	switch g.intn(6) {
+	switch g.intn(7) {
 	case 0:
-		if ownerHasLabel {
-			return ""
-		}
-		return "a"
+		return ""
 	case 1:
 		return g.c09label() + "." + g.c09label() + "." + g.pick([]string{"", "net", "ex.com."})
 	case 2:
-		return g.pick([]string{".", "a.b", "a..b", "a.b.", "NS1.Ex.Com", "x.y.z.w"})
+		return g.pick([]string{".", "a.b", "a..b", "a.b.", "NS1.Ex.Com", "x.y.z.w", "..", ".a", "..a.", ".*.a"})
+	case 3:
+		return g.c09label() + g.pick([]string{".", "..", "."})
 	}
-	l := g.c09label()
-	if strings.Contains(l, "\\056") {
-		l = "a"
-	}
-	return l
+	return g.c09label()
 }
 
 func (g *gen) c09num(max uint64) string {
@@ -237,17 +232,14 @@ var c09txts = []string{"hello", "v=spf1\\040-all", "a\\072b\\054c", "", "q\\042u
 var c09params = []string{"", "alpn=h2", "alpn=\"h2|h3\"", "port=443", "ipv4hint=1.2.3.4", "ipv4hint=1.2.3.4|5.6.7.8", "ipv6hint=2001:db8::1",
 	"ipv6hint=2001:db8::1|::1", "mandatory=alpn;alpn=h2", "alpn=h3;no-default-alpn", "port=8443;alpn=h2;ipv4hint=10.0.0.1", "ech=AAEC", "port=0", "bogus=1", "alpn="}
 
-// c09line: one line of type `t`; never in a confirmed defect class
+// c09line: one line of type `t` (every class, the formerly excluded ones included: explicit
+// serial 0 under any default serial, wildcard owners and `*.` targets on B/H, `M*.`, short server
+// names, empty labels in front of `*`)
 func (g *gen) c09line(t byte, serial uint32) string {
 	unused := g.pick([]string{"", "", "x"})
 	switch t {
 	case 'Z':
 		ser := g.c09num(4294967295)
-		if serial != 0 {
-			if v, ok := parseDec(ser); ok && v == 0 {
-				ser = "1"
-			}
-		}
 		return g.c09join("Z", []string{g.c09name(), g.c09nameHi(), g.c09nameHi(), ser, g.c09num(4294967295), g.c09num(4294967295), g.c09num(4294967295), g.c09num(4294967295), g.c09num(4294967295), unused, g.c09loc()})
 	case '.', '&':
 		o := g.c09name()
@@ -272,14 +264,8 @@ func (g *gen) c09line(t byte, serial uint32) string {
 		return g.c09join(":", []string{g.c09name(), g.pick([]string{"99", "257", "0", "65535", "65536", "70000", "", "16"}), g.pick(c09txts), g.c09num(4294967295), unused, g.c09loc()})
 	case 'M', '8':
 		n := g.c09name()
-		if strings.HasPrefix(n, ".") {
-			n = "a" + n
-		}
 		if g.chance(1, 4) {
-			if strings.Trim(n, ".") == "" { // `M*.` : confirmed defect class
-				n = "a"
-			}
-			n = "*." + n
+			n = "*." + n // with n = "" or ".": the catch-all map `M*.` (formerly C09-root-wildcard-map)
 		}
 		return g.c09join(string(t), []string{n, g.c09lmap()})
 	case '%':
@@ -294,66 +280,68 @@ func (g *gen) c09line(t byte, serial uint32) string {
 		return g.c09join("!", f)
 	case 'B', 'H':
 		tgt := g.c09nameHi()
-		if g.chance(1, 8) && !strings.HasPrefix(tgt, "*") && !strings.HasPrefix(tgt, "\\052") && !strings.HasPrefix(tgt, ".") {
-			tgt = "*." + tgt // the `*.` of a target is dropped by the parser; `*.*.` is a confirmed defect class
+		switch g.intn(12) {
+		case 0, 1:
+			tgt = "*." + tgt // the parser drops one `*.` of a target
+		case 2:
+			tgt = "*.*." + tgt // formerly C09-svcb-target-star
+		case 3:
+			tgt = g.pick([]string{"*.", "*", "*.*", "\\052.\\052.c", "*..*.c", ".*.c", "*.*.*.c"})
 		}
-		owner := g.c09name()
-		if strings.HasPrefix(owner, "*") || strings.HasPrefix(owner, "\\052") { // wildcard owner on B/H: confirmed defect class
-			owner = "a" + owner
-		}
+		owner := g.c09wname() // wildcard owners: formerly C09-svcb-wildcard-owner
 		return g.c09join(string(t), []string{owner, tgt, g.c09num(4294967295), g.c09loc(), g.c09num(65535), g.pick(c09params)})
 	}
 	return "?"
 }
 
-func parseDec(s string) (uint64, bool) {
-	if s == "" {
-		return 0, false
-	}
-	var v uint64
-	for _, c := range []byte(s) {
-		if c < '0' || c > '9' {
-			return 0, false
-		}
-		v = v*10 + uint64(c-'0')
-		if v > 1<<40 {
-			return 0, false
-		}
-	}
-	return v, true
-}
-
 const c09types = "Z.&+=@SC^':M8%!BH"
 
 // data files for `prep`: the shared generator's files (valid zones, maps, subnets), extra subnet
-// lines, SOA lines with every optional field; never an explicit serial 0
+// lines, SOA lines with every optional field (explicit serial 0 included), and what the line filter
+// of the parser deals with: comments, empty and one-character lines, lines behind blanks (formerly
+// C09-preprocess-short-line)
 func (g *gen) c09file(serial uint32) []string {
 	df := g.genDataFile(dataOpts{v6: true, odd: true, locs: true, maps: true, maxZone: 3})
 	lines := append([]string{}, df.lines...)
 	for i := g.intn(4); i > 0; i-- {
 		lines = append(lines, g.c09line('Z', serial))
 	}
+	for i := g.intn(4); i > 0; i-- {
+		switch g.intn(6) {
+		case 0:
+			lines = append(lines, g.pick([]string{"Z", "%", "+", "#", "!", ".", "&", "M", "B", "x", " ", "  ", ""}))
+		case 1:
+			lines = append(lines, g.pick([]string{" ", "  ", "   "})+g.pick([]string{"Z", "%", "+", "#", "# c", "#%aa,10.0.0.0/8,m1", "!"}))
+		case 2:
+			lines = append(lines, g.pick([]string{"# comment", "#", "##", "#Za.b,c.d,e.f"}))
+		case 3:
+			lines = append(lines, g.pick([]string{" ", "  "})+g.c09line('Z', serial))
+		case 4:
+			t := "+=C^'&@"[g.intn(7)]
+			lines = append(lines, g.pick([]string{" ", "   "})+g.c09line(t, serial))
+		case 5:
+			lines = append(lines, g.pick([]string{"Z,", "Z.", "+,", "%,", "%a", "M,", "Zx"}))
+		}
+	}
 	for i := g.intn(6); i > 0; i-- {
 		lo := g.pick([]string{"aa", "bb", "\\000\\001", "\\377\\376"})
+		blank := g.pick([]string{"", "", "", " ", "  "}) // a subnet line behind blanks is accumulated like any other
 		net := g.pick([]string{"10.0.0.0/8", "10.1.2.3/16", "1.2.3.4", "", "2001:db8::/32", "::/0", "0.0.0.0/0", "::ffff:1.2.3.0/120", "10.128.0.0/9", "10.0.0.0/7",
 			"2001:db8:1::/48", "2001:db8::1", "255.255.255.255", "ffff:ffff:ffff:ffff:ffff:ffff:ffff:ffff", "128.0.0.0/1", "8000::/1", "0.0.0.0/1", "::/1", "192.168.1.0/24"})
-		lines = append(lines, fmt.Sprintf("%%%s,%s,%s", lo, net, g.pick([]string{"m1", "e1", "\\000\\000", "m"})))
+		lines = append(lines, blank+fmt.Sprintf("%%%s,%s,%s", lo, net, g.pick([]string{"m1", "e1", "\\000\\000", "m"})))
 	}
 	var out []string
 	seen := map[string]bool{}
 	for _, l := range lines {
 		t := strings.TrimLeft(l, " ")
-		if strings.HasPrefix(t, "%") {
+		if strings.HasPrefix(t, "%") && len(t) > 1 {
 			// one location per (range, map): the order of equal range points after sort.Slice is unspecified
-			f := strings.Split(t[1:], ",")
+			f := append(strings.Split(t[1:], ","), "", "")
 			k := c09netKey(f[1]) + "|" + f[2]
 			if seen[k] {
 				continue
 			}
 			seen[k] = true
-		}
-		if len(t) == 1 { // a one-character line: confirmed defect class (preprocessing decodes it, the parser skips it)
-			continue
 		}
 		out = append(out, l)
 	}
